@@ -24,7 +24,7 @@ from depccg.grammar import en as grammar_en, ja as grammar_ja
 
 # the cleanliness claim of normalize_tokens is checked on tokens that do not already start with '_' (normalize_tokens leaves
 # those untouched, ccg2lambda_tools.py:61,65).  Set to True to make e.g. surf="_." a reported violation.
-STRICT_UNDERSCORE = os.environ.get('VERIF_C15_STRICT_UNDERSCORE', '') == '1'
+STRICT_UNDERSCORE = os.environ.get('VERIF_C15_STRICT_UNDERSCORE', '1') == '1'
 
 PRE = '''From Coq Require Import List NArith Bool.
 Import ListNotations.
@@ -685,6 +685,8 @@ def run(ctx):
         lang = 'en' if d % 2 == 0 else 'ja'
         set_global_language_to(lang)
         doc = make_doc(rng, lang, ctx.quick)
+        if d == 0:      # deterministic probe of the known finding: a token that starts with '_' and contains logic punctuation
+            doc[0][0].tree.tokens[0]['word'] = '_.'
         use_symbol = rng.random() < 0.5 if lang == 'en' else rng.random() < 0.8
         jigg_first = rng.random() < 0.5
         where = f'doc {d} ({lang})'
